@@ -331,10 +331,20 @@ pub fn check(r: &RunResult, rep: &mut Report) {
 				take = rest.len();
 			}
 			let (this, next) = rest.split_at(take);
-			// a trailing batch is legitimate only if it ended in a hard failure or the run was cut
-			let last_exit = this.last().and_then(|k| cx.invs[*k].exit_seq);
-			let cut = last_exit.is_none() || w.trace.iter().any(|e| e.seq > last_exit.unwrap_or(0) && e.seq < last_exit.unwrap_or(0) + 3 && matches!(&e.ev, Ev::Stopped { .. }));
-			cx.batch(rep, kind, &hooks, pre_t, this, &env, true);
+			// a trailing batch (no open of that path follows) is legitimate if it ended in a hard
+			// failure, or if the run was cut before the daemon could open the file: the open follows
+			// the last pre hook within the storage latency, so "cut" = the daemon ran for less than a
+			// virtual second after that hook's exit
+			let last = this.last().map(|k| &cx.invs[*k]);
+			let cut = match last.and_then(|i| i.exit_seq) {
+				None => true,
+				Some(x) => {
+					let t_exit = w.trace.iter().find(|e| e.seq == x).map(|e| e.t).unwrap_or(0);
+					let t_stop = w.trace.iter().find(|e| e.seq > x && matches!(&e.ev, Ev::Stopped { .. })).map(|e| e.t).unwrap_or(w.mono);
+					t_stop.saturating_sub(t_exit) < 1_000_000_000
+				}
+			};
+			cx.batch(rep, kind, &hooks, pre_t, this, &env, false);
 			if !failed && !cut && take == wanted.len() {
 				rep.add(Violation::new("C10", "file_pre_hooks_without_write", pre_t, kind, format!("{}", path.rsplit('/').next().unwrap_or(""))));
 			}
